@@ -170,7 +170,7 @@ def main(argv=None):
     instrument.install(REPO)
     cs = collect_contracts(pid, tier)
     if a.only:
-        cs = [(m, c) for (m, c) in cs if a.only in c.name]
+        cs = [(m, c) for (m, c) in cs if a.only in c.name and not a.only.startswith("standin:")]
     tasks = []
     for modname, c in cs:
         import inspect
@@ -398,8 +398,10 @@ def main(argv=None):
 
     # stand-ins
     standin_results = []
-    if not a.no_standins and not a.only:
+    if not a.no_standins and (not a.only or a.only.startswith("standin:")):
         for s in collect_standins(pid):
+            if a.only and s["name"] != a.only[len("standin:"):]:
+                continue
             sr = run_standin(s, tier, a.seed)
             standin_results.append(sr)
             if sr.get("error"):
